@@ -6,7 +6,7 @@ allvars == <<sc, path, t, fin, out>>
 
 CNeg1 == -1
 Steady(id) == CASE id = "L1" -> <<R(2)>> [] id = "L2" -> <<R(2)>> [] id = "L3" -> <<RZero, RZero>>
-                [] id = "L6" -> <<RZero, R(1)>> [] id = "L9" -> <<R(-2)>>
+                [] id = "L6" -> <<RZero, R(1)>> [] id = "L9" -> <<R(-2)>> [] id = "L4" -> <<R(2)>>
 \* deviations of the initial window (x_0, x_{-1}) from the steady state
 InitDevs(id) == LET n == Len(Model(id).vars) IN
     { <<RZeroVec(n), RZeroVec(n)>>,
@@ -38,6 +38,9 @@ Step == /\ t < TN /\ ~fin
                                 mshocks |-> Model(sc.id).mshocks, steady |-> Steady(sc.id),
                                 u |-> [k \in 1..TN |-> Prof(sc.id, sc.u)[k]], a |-> [k \in 1..(TN + 2) |-> Prof(sc.id, sc.a)[k]],
                                 w |-> [k \in 1..TN |-> WProf(sc.id)[k]],
+                                eqs |-> Model(sc.id).eqs, T |-> Model(sc.id).T, K |-> Model(sc.id).K,
+                                cont |-> [j \in 1..2 |-> Expect(sc.id, x, Prof(sc.id, sc.a), TN, j, sc.dev)],
+                                breaks |-> {1} \cup {s \in 1..TN : \E j \in 1..Len(Model(sc.id).shocks) : Prof(sc.id, sc.u)[s][j] # RZero},
                                 meas |-> [k \in 1..TN |-> MeasAt(sc.id, np, WProf(sc.id), k, sc.dev)],
                                 nunstable |-> Len(SelectSeq(Model(sc.id).roots, LAMBDA r : RLt(ROne, RAbsQ(r)))), fwd |-> Model(sc.id).fwd]
         /\ t' = t + 1 /\ fin' = (t + 1 = TN) /\ UNCHANGED sc
